@@ -58,6 +58,37 @@ def canonical_writers(prog, lm):
     return direct, w
 
 
+def rotation_publish_order(ctx, prog, eff, rid):
+    """rotate_wal_if_needed: create the segment ≺ list it in the MANIFEST ≺ switch the active writer (shared: C01.R5 and C03.R8 — every mutator swallows a rotation
+    error and keeps writing to "the current WAL", which is only safe while the active writer is a segment the MANIFEST lists).  The switch is an assignment through
+    the guard or mem::replace / mem::swap / mem::take on it."""
+    rw = ctx.body(rid, 'PersistenceState::rotate_wal_if_needed')
+    if rw is None:
+        return
+    wg = rw.var_local('wal_guard')
+    sw = set(util.assign_blocks(rw, local=wg[0] if wg else -1, deref_only=True))
+    ov = flow.Origin(rw, stop_at_vars=True)
+    for c in rw.calls:
+        if c.callee and re.search(r'core::mem::(replace|swap|take)$', c.callee) and c.args and flow.render(ov.of_operand(c.args[0])) in ('var:wal_guard', 'arg:wal_guard', '&mut var:wal_guard'):
+            sw.add(c.bb)
+        elif c.callee and re.search(r'core::mem::(replace|swap|take)$', c.callee) and c.args and 'wal_guard' in flow.render(ov.of_operand(c.args[0])):
+            sw.add(c.bb)
+    util.check_chain(ctx, rid, rw, [
+        util.Step('WalWriter::create', rw, eff.blocks(rw, 'wal_create')),
+        util.Step('Manifest::save', rw, eff.blocks(rw, 'manifest_save')),
+        util.Step('assign *wal_guard', rw, sorted(sw), is_call=False),
+    ], final_ok=False)
+    # nothing can fail once the writer has been switched (the callers keep going after an Err)
+    errs = flow.err_blocks(rw)
+    after = set()
+    for b_ in sw:
+        after |= rw.reach(rw.succ(b_))
+    late = sorted(after & errs)
+    ctx.inst(rid, rw.short, 'no failure exit after the active writer was switched', bool(sw) and not late,
+             ('Err exit at %s is reachable after the switch: the callers log the error and keep appending to a segment the MANIFEST may not list' % rw.loc_of(late[0])) if late
+             else '%d switch site(s); every exit after them is Ok' % len(sw))
+
+
 def run(ctx, prog):
     ctx.not_decided = ['what a given crash state contains; torn-write handling; replay arithmetic',
                        'that the file system honours fsync / rename atomicity']
@@ -306,13 +337,7 @@ def run(ctx, prog):
     ctx.rule('C01.R5', 'list before use: rotate_wal_if_needed: create_with_error_handler ≺ Manifest::save ≺ assign(*wal_guard); '
                        'constructors: create_with_error_handler ≺ Manifest::save ≺ PersistenceState{..} ≺ Ok; '
                        'create_with_error_handler: write_all(magic) ≺ sync_data ≺ Ok')
-    rw = ctx.body('C01.R5', 'PersistenceState::rotate_wal_if_needed')
-    wg = rw.var_local('wal_guard')
-    util.check_chain(ctx, 'C01.R5', rw, [
-        util.Step('WalWriter::create', rw, eff.blocks(rw, 'wal_create')),
-        util.Step('Manifest::save', rw, eff.blocks(rw, 'manifest_save')),
-        util.Step('assign *wal_guard', rw, util.assign_blocks(rw, local=wg[0] if wg else -1, deref_only=True), is_call=False),
-    ], final_ok=False)
+    rotation_publish_order(ctx, prog, eff, 'C01.R5')
     # the true return (rotated) only after the assignment
     for name in ('HnswBackend::with_persistence_with_hnsw_params', 'HnswBackend::recover_with_hnsw_params_and_mode'):
         f = ctx.body('C01.R5', name)
